@@ -141,13 +141,15 @@ BlocksQuick(mt) ==
     \cup { MkBlock(o) : o \in ProfilesOver(Mats1 \cup Mats2 \cup Mats3Few, {mt}) }
     \cup { MkBlock(o) : o \in ProfilesOf(OwnNameProfiles, OwnNameMats, {mt}) }
 
-(* thorough: every option combination (lags 0-3) on every 1x1 / 2x2 / designed 3x3 matrix; the      *)
-(* colliding names with every option on the 1x1 and base matrices; the mid-sized 3x3 family under   *)
-(* the profiles; a longer and a one-period horizon on the base matrices; the own-name blocks        *)
+(* thorough: every option combination (lags 0-2) on every 1x1 / 2x2 / designed 3x3 matrix, and the  *)
+(* chained lag with the default tolerance; the colliding local names with every option on the 1x1   *)
+(* and base matrices; a longer and a one-period horizon on the base matrices; the mid-sized 3x3     *)
+(* family under the profiles; the own-name blocks                                                   *)
 BlocksThorough(mt) ==
-    { MkBlock(o) : o \in OptsOverN(Mats1 \cup Mats2 \cup Mats3Few, {mt}, {0, 4}, 0..3, {0}) }
-    \cup { MkBlock(o) : o \in OptsOverN(Mats1 \cup BaseMats, {mt}, {0, 4}, 0..3, {1}) }
-    \cup { MkBlock(o) : o \in OptsOverN(BaseMats, {1, 6}, {0, 4}, 0..3, {0}) }
+    { MkBlock(o) : o \in OptsOverN(Mats1 \cup Mats2 \cup Mats3Few, {mt}, {0, 4}, 0..2, {0}) }
+    \cup { MkBlock(o) : o \in OptsOverN(Mats1 \cup Mats2 \cup Mats3Few, {mt}, {0}, {3}, {0}) }
+    \cup { MkBlock(o) : o \in OptsOverN(Mats1 \cup BaseMats, {mt}, {0}, 0..3, {1}) }
+    \cup { MkBlock(o) : o \in OptsOverN(BaseMats, {1, 6}, {0}, 0..3, {0}) }
     \cup { MkBlock(o) : o \in ProfilesOver(Mats3Mid, {4}) }
     \cup { MkBlock(o) : o \in ProfilesOf(OwnNameProfiles, OwnNameMats, {mt, 1}) }
 
